@@ -175,7 +175,7 @@ func init() {
 
 func runC01(c *Ctx) {
 	r := c.R
-	r.Explanation = "Decides the routing and traversal-order clauses of C01 on every path of Send, the fan-out callback and the traversal function: Send processes exactly the graph looked up under its own event type with a fresh event built from (type, payload, clock, empty format table) and returns that processing's results; the fan-out starts the traversal exactly once per pipeline with the same event/channel/wait group and stops only when the context is done; the traversal invokes Process exactly once, outside any loop, and starts children iff err == nil and event != nil and there are successors, handing each successor the event the node RETURNED. linkNodes' index arithmetic, sync.Map.Range visiting every key and schedules are not decided. C01.range: graphMap.Range offers every stored pipeline to its callback exactly once and continues exactly as the callback says. C01.commit: the stored list is linked by this call from the currently registered nodes; C01.step children-due: successors that are due are always reached. C01.drain: the collector receives until the channel is closed or the context is done (a collector that leaves early blocks the launcher, later pipelines never start)."
+	r.Explanation = "Decides the routing and traversal-order clauses of C01 on every path of Send, the fan-out callback and the traversal function: Send processes exactly the graph looked up under its own event type with a fresh event built from (type, payload, clock, empty format table) and returns that processing's results; the fan-out starts the traversal exactly once per pipeline with the same event/channel/wait group and stops only when the context is done; the traversal invokes Process exactly once, outside any loop, and starts children iff err == nil and event != nil and there are successors, handing each successor the event the node RETURNED. linkNodes' index arithmetic, sync.Map.Range visiting every key and schedules are not decided. C01.range: graphMap.Range offers every stored pipeline to its callback exactly once and continues exactly as the callback says. C01.commit: the stored list is linked by this call from the currently registered nodes; C01.step children-due: successors that are due are always reached. C01.drain: the collector receives until the channel is closed or the context is done (a collector that leaves early blocks the launcher, later pipelines never start). C01.link no-caller-slice: no Broker method keeps a slice the caller handed in."
 	r.NotDecided = []string{"linkNodes linking in registration order (index arithmetic; left to TestLinkNodes)", "sync.Map.Range visiting every key (A4)", "goroutine schedules"}
 	a := c.protoAnchors("C01.anchor")
 	if a == nil {
@@ -188,6 +188,7 @@ func runC01(c *Ctx) {
 	c.ruleCollectorAs("C01.drain", a)
 	c.ruleChainImmutable("C01.link")
 	c.ruleGraphMap("C01.range", "")
+	c.ruleNoCallerSliceRetained("C01.link")
 	// the list a Send traverses is the one linked, at registration, from the nodes registered
 	// under the definition's ids at that moment (shares the commit rule of C05/C07)
 	c.ruleCommit()
